@@ -2,6 +2,9 @@ module verifharness
 
 go 1.14
 
-require github.com/hashicorp/go-argmapper v0.0.0
+require (
+	github.com/hashicorp/go-argmapper v0.0.0
+	github.com/hashicorp/go-hclog v0.14.0
+)
 
 replace github.com/hashicorp/go-argmapper => /repo
